@@ -98,6 +98,16 @@ SCENARIOS = [
 ]
 
 
+# two requests whose error answers come from the SAME pre-built errors_map entry with different causes, and two
+# legal chunked uploads with two-digit size lines: every single pre-emption is tried on every run (quick tier)
+RACE_SCENARIOS = [
+    [_call('tA', [['body_read']], method='POST', form='{"tA": bad', json_bad=True, accept='application/json'),
+     _call('tC', [['body_read']], method='POST', form='["tC", 2, 3]', json_nonobj=True, accept='application/json')],
+    [_call('tA', [['body_read']], method='POST', form='f=tAf' + 'a' * 40, chunked_ok=True),
+     _call('tC', [['see'], ['body_read']], method='POST', form='g=tCg' + 'c' * 33, chunked_ok=True, pad='zz')],
+]
+
+
 def corpus():
     out = [
         # two requests, strictly alternating
@@ -121,6 +131,10 @@ def corpus():
         _arr([_call('tA', [['body_read']], method='POST', form='f=tAf' + 'y' * 40, too_big=True),
               _call('tC', [['body_read']], method='POST', form='f=tCf' + 'y' * 40, too_big=True,
                     accept='application/json', pad='zzz')], 1, [[990, 0]], max_body=30),
+        dict(kind='batch', race=0, preempt=1),
+        dict(kind='batch', race=1, preempt=1),
+        _arr(RACE_SCENARIOS[0], 0, [[700, 1]]),
+        _arr(RACE_SCENARIOS[1], 1, [[300, 0]]),
         _arr([_call('tA', [['see'], ['boom']]), _call('tC', [['see'], ['copy'], ['see']]),
               _call('tE', [['hdr', 'X-C', 'tEh'], ['status', 418], ['see']])], 0, [[300, 1], [300, 2], [300, 0]]),
     ]
@@ -219,15 +233,19 @@ def _gen_arr(rng):
         tok = 't%s' % 'ACE'[i]
         kw = dict(pad='z' * rng.choice([0, 0, 3, 11]))
         if bodyerr and rng.random() < 0.85:
-            kw.update(method='POST', form='f=%sf' % tok + 'y' * 40)
-            kw['chunked_bad' if rng.random() < 0.6 else 'too_big'] = True
-            if rng.random() < 0.5:
+            kind = rng.choice(['chunked_bad', 'too_big', 'json_bad', 'json_nonobj'])
+            form = {'json_bad': '{"%s": bad' % tok, 'json_nonobj': '["%s", 1]' % tok}.get(kind, 'f=%sf' % tok + 'y' * 40)
+            kw.update(method='POST', form=form)
+            kw[kind] = True
+            if rng.random() < 0.6:
                 kw['accept'] = 'application/json'
             script = [['see']] * rng.randrange(0, 2) + [['hdr', 'X-A', tok + 'h']] * rng.randrange(0, 2) + [['body_read']]
             calls.append(_call(tok, script, **kw))
             continue
         if rng.random() < 0.4:
-            kw.update(method='POST', form='f=%sf&g=%sg' % (tok, tok))
+            kw.update(method='POST', form='f=%sf&g=%sg' % (tok, tok) + tok[-1].lower() * rng.choice([0, 20, 45]))
+            if not bodyerr and rng.random() < 0.5:
+                kw['chunked_ok'] = True        # a legal chunked upload (two-digit hex size lines)
         if rng.random() < 0.4:
             kw['cookie'] = 'c=%sc' % tok
         if rng.random() < 0.2:
@@ -302,7 +320,8 @@ def _batch_worker(args):
 
 def _run_batch(case):
     import multiprocessing
-    base = _arr(SCENARIOS[case['scenario']], abs=True, reuse=True)
+    calls = RACE_SCENARIOS[case['race']] if 'race' in case else SCENARIOS[case['scenario']]
+    base = _arr(calls, abs=True, reuse=True)
     steps = sched.run_arrangement(dict(base, reuse=False))['steps']
     # (if the code changed the number of line steps since the case was made, the schedules are
     # enumerated for the steps as they are now)
@@ -311,7 +330,7 @@ def _run_batch(case):
         _ENUM.clear()
         _ENUM[ek] = sched.enumerate_schedules(steps, case['preempt'])
     allsch = _ENUM[ek]
-    part = allsch[case['lo']:case['hi']]
+    part = allsch[case.get('lo', 0):case.get('hi')]
     nproc = max(1, min(12, (os.cpu_count() or 2) - 2))
     chunk = max(1, (len(part) + nproc * 4 - 1) // (nproc * 4))
     jobs = [(base, part[i:i + chunk]) for i in range(0, len(part), chunk)]
@@ -386,8 +405,10 @@ def oracle(case, obs):
         if obs.get('failures'):
             st, sw, f = obs['failures'][0]
             return 'schedule start=%s switches=%s: %s' % (st, sw, f)
-        if obs.get('ran') != case['hi'] - case['lo'] and obs.get('steps') == case['steps']:
+        if 'hi' in case and obs.get('ran') != case['hi'] - case['lo'] and obs.get('steps') == case['steps']:
             return 'batch ran %s of %s schedules' % (obs.get('ran'), case['hi'] - case['lo'])
+        if not obs.get('ran'):
+            return 'batch ran no schedule'
         return None
     return sched.arrangement_failure(case, obs)
 
@@ -412,12 +433,16 @@ def classify(case, obs):
         errs = sum(1 for o in obs.get('outs', []) if o and o[0] in ('attr', 'key', 'bad'))
         return 'ops/threads=%d/%s' % (len(case['threads']), 'with-errors' if errs else 'no-errors')
     if case['kind'] == 'batch':
-        return 'batch/scenario=%d/schedules=%s' % (case['scenario'], obs.get('ran'))
+        return 'batch/%s/preempt=%d/schedules=%s' % ('race%d' % case['race'] if 'race' in case else 'scenario%d' % case['scenario'],
+                                                   case['preempt'], obs.get('ran'))
     kinds = set()
     for c in case['calls']:
         for a in c['script']:
             if a[0] in ('copy', 'abort', 'boom', 'gen', 'cookie', 'form_see', 'status', 'body_read'):
                 kinds.add(a[0])
+        for k in ('chunked_ok', 'chunked_bad', 'json_bad', 'json_nonobj', 'too_big'):
+            if c.get(k):
+                kinds.add(k)
     return 'arr/threads=%d/preempt=%d/%s' % (len(case['calls']), len(obs.get('switches') or []),
                                            '+'.join(sorted(kinds)) or 'plain')
 
